@@ -25,3 +25,103 @@ Section WithJson.
     - simpl in E. inversion E; reflexivity.
   Qed.
 End WithJson.
+
+Section Reencode.
+  Variable marshal : jv -> bytes.
+  Variable unmarshal : bytes -> option jv.
+  Variable max_att : Z.
+  Local Notation enc := (encode marshal unmarshal max_att).
+
+  (** Encoding again - with a fresh copy of the header, or with the very header object the first
+      Encode rewrote - yields the same frames (and the same everything). *)
+  Theorem reencode_same h v e :
+    clean_opt v = true -> enc h v = Ok e ->
+    enc h (e_value e) = Ok e /\ enc (e_header e) (e_value e) = Ok e.
+  Proof.
+    intros C E. pose proof (encode_leaves_value marshal unmarshal max_att h v e C E) as EV.
+    rewrite EV. split; [exact E|].
+    unfold encode in *. destruct v as [x|].
+    - destruct (negb (arg_ok x)); [discriminate|].
+      destruct (((h_type h =? 2) || (h_type h =? 3) || is_binary (h_type h)) && hb 2 x) eqn:B.
+      + destruct (dv marshal false x 0) as [[[m bufs] n]| |] eqn:D; try discriminate.
+        destruct ((0 <? max_att)%Z && (max_att <? Z.of_N n)%Z) eqn:M; [discriminate|].
+        destruct (encode_string _ _ _ _) eqn:S; simpl in E; try discriminate.
+        inversion E; subst; clear E. cbn [e_header h_type h_nsp h_id h_att].
+        apply andb_true_iff in B as [B1 B2].
+        set (t' := if h_type h =? 2 then 5 else if h_type h =? 3 then 6 else h_type h) in *.
+        assert (T : ((t' =? 2) || (t' =? 3) || is_binary t') = true /\
+                    (if t' =? 2 then 5 else if t' =? 3 then 6 else t') = t').
+        { unfold t', is_binary in *.
+          destruct (h_type h =? 2) eqn:A2; [split; reflexivity|].
+          destruct (h_type h =? 3) eqn:A3; [split; reflexivity|].
+          simpl in B1. rewrite A2, A3. simpl. split; [exact B1|reflexivity]. }
+        destruct T as [T1 T2]. rewrite T1, B2. cbn [andb]. rewrite T2, S. reflexivity.
+      + destruct (encode_string _ _ _ _) eqn:S; simpl in E; try discriminate.
+        inversion E; subst; clear E. cbn [e_header]. rewrite B, S. reflexivity.
+    - simpl in *. inversion E; subst. reflexivity.
+  Qed.
+End Reencode.
+
+(** The header is handed back unchanged unless the value goes through the binary path. *)
+Definition header_kept (h : header) (v : option gv) : bool :=
+  negb (((h_type h =? 2) || (h_type h =? 3) || is_binary (h_type h))
+        && match v with Some x => hb 2 x | None => false end).
+
+Lemma encode_leaves_header marshal unmarshal max_att h v e :
+  header_kept h v = true -> encode marshal unmarshal max_att h v = Ok e -> e_header e = h.
+Proof.
+  unfold header_kept, encode. intros K E. destruct v as [x|].
+  - destruct (negb (arg_ok x)); [discriminate|].
+    apply negb_true_iff in K. rewrite K in E.
+    destruct (encode_string _ _ _ _); simpl in E; try discriminate. inversion E; reflexivity.
+  - simpl in E. inversion E; reflexivity.
+Qed.
+
+(** * The protocol document's examples (socket.io-protocol v5), on the instance jprint / jparse *)
+Definition ev (name : bytes) (args : list gv) : option gv :=
+  Some (VPtr (VSlice (VAny (VStr name) :: map VAny args))).
+Definition frames_of (r : res enc_out) : list bytes := match r with Ok e => e_frames e | _ => [] end.
+
+Definition protocol_examples_stmt : Prop :=
+  (* 0                         CONNECT, main namespace *)
+  frames_of (encode_go 0 (mkHeader 0 [47] None 0) None) = [[48]] /\
+  (* 0/admin,{"sid":"x"} *)
+  frames_of (encode_go 0 (mkHeader 0 [47;97;100;109;105;110] None 0)
+                       (Some (VPtr (VStruct [([115;105;100], VStr [120])]))))
+    = [[48;47;97;100;109;105;110;44;123;34;115;105;100;34;58;34;120;34;125]] /\
+  (* 1/admin, *)
+  frames_of (encode_go 0 (mkHeader 1 [47;97;100;109;105;110] None 0) None)
+    = [[49;47;97;100;109;105;110;44]] /\
+  (* 2["foo"] *)
+  frames_of (encode_go 0 (mkHeader 2 [47] None 0) (ev [102;111;111] []))
+    = [[50;91;34;102;111;111;34;93]] /\
+  (* 2/admin,12["foo"] *)
+  frames_of (encode_go 0 (mkHeader 2 [47;97;100;109;105;110] (Some 12) 0) (ev [102;111;111] []))
+    = [[50;47;97;100;109;105;110;44;49;50;91;34;102;111;111;34;93]] /\
+  (* 3/admin,13["bar"] *)
+  frames_of (encode_go 0 (mkHeader 3 [47;97;100;109;105;110] (Some 13) 0)
+                       (Some (VPtr (VSlice [VAny (VStr [98;97;114])]))))
+    = [[51;47;97;100;109;105;110;44;49;51;91;34;98;97;114;34;93]] /\
+  (* 51-["baz",{"_placeholder":true,"num":0}] + <Buffer 01 02 03 04> *)
+  frames_of (encode_go 0 (mkHeader 2 [47] None 0) (ev [98;97;122] [VBin [1;2;3;4]]))
+    = [[53;49;45;91;34;98;97;122;34;44;123;34;95;112;108;97;99;101;104;111;108;100;101;114;34;58;
+        116;114;117;101;44;34;110;117;109;34;58;48;125;93]; [1;2;3;4]] /\
+  (* 61-/admin,456[{"_placeholder":true,"num":0}] + <Buffer 03 02 01> *)
+  frames_of (encode_go 0 (mkHeader 3 [47;97;100;109;105;110] (Some 456) 0)
+                       (Some (VPtr (VSlice [VAny (VBin [3;2;1])]))))
+    = [[54;49;45;47;97;100;109;105;110;44;52;53;54;91;123;34;95;112;108;97;99;101;104;111;108;100;
+        101;114;34;58;116;114;117;101;44;34;110;117;109;34;58;48;125;93]; [3;2;1]] /\
+  (* the specification printer gives the same frames *)
+  frames_of (encode_go 0 (mkHeader 2 [47] None 0) (ev [98;97;122] [VBin [1;2;3;4]]))
+    = spec_frames jprint 2 [47] None (Some (BArr [BStr [98;97;122]; BBin [1;2;3;4]])) /\
+  (* and the decoder gives the packet back, finishing exactly at the last frame *)
+  (match feed_go None 0 (frames_of (encode_go 0 (mkHeader 2 [47;97] (Some 7) 0)
+                                              (ev [97;92] [VBin [1;2]; VInt 5]))) with
+   | Ok ([(1%nat, (h, name, bufs))], None) =>
+     h = mkHeader 5 [47;97] (Some 7) 1 /\ name = [97;92] /\
+     decode_go h bufs [TBin; TInt] = Ok [BBin [1;2]; BInt 5]
+   | _ => False
+   end).
+
+Lemma protocol_examples : protocol_examples_stmt.
+Proof. vm_compute. repeat split; reflexivity. Qed.
